@@ -96,7 +96,7 @@ struct Ctx {
   uint64_t evals = 0, executions = 0, nontrivial = 0, skipped = 0, excluded_known = 0, failing_evals = 0, evals_after_failure = 0;
   std::unordered_map<const char*, uint64_t> classes_p;   // keyed by literal address; merged by text on output
   std::map<std::string, uint64_t> classes_merged() const { std::map<std::string, uint64_t> m; for (auto& kv : classes_p) m[kv.first] += kv.second; return m; }
-  HashSet64 distinct;
+  HashSet64 distinct;     // capacity is raised for the thorough tier by main()
   std::vector<Sample> samples; uint64_t sample_stride = 0;
   Failure fail_first, fail_last;     // first = as found, last = last failing evaluation (the shrunk case under rapidcheck)
   std::map<std::string, uint64_t> extra;       // free-form counters
